@@ -30,6 +30,18 @@ CHECKS = {
              "_ymd2ord) and Base/PyStr.v as the meaning of slicing/int()/f-string fields, both cross-checked against the "
              "interpreter on every run. Print Assumptions: closed under the global context.",
         technique="Coq proof over a model regenerated from source by a translator + exhaustive correspondence"),
+    "C18": dict(
+        cat="proof",
+        text="Theorems (Props/C18.v) about a literal Gallina model of the lroo kernel (positions of ones, gap test, "
+             "threshold, 32-bit store) and of the croo accessor pipeline (sort by time descending, NaN-absorbing cumsum, "
+             "argmax, + latest value): lroo equals the declaratively specified longest run (>= 2, else 0) without "
+             "wrapping for every series shorter than 2^32; croo equals the run ending at the latest time stamp, is "
+             "invariant under every permutation of the stored steps, and croo <= max(lroo, 1). Tied to /repo by an exact "
+             "correspondence, exhaustive over all binary series <= 10 (16 thorough) and all stored orders <= 5 (6).",
+        ref="7 (C18)",
+        note="Trusted: Coq kernel + vm_compute; harness; xarray sortby/where/cumsum/argmax modelled by documented behaviour "
+             "and compared on every case; distinct time stamps. Print Assumptions: closed under the global context.",
+        technique="Coq proof (induction, sorted-permutation uniqueness) + exhaustive small-scope correspondence"),
 }
 
 PENDING = "no check has been built for this property yet (work in progress; see DESIGN.md section 7 for the plan)"
